@@ -277,7 +277,11 @@ def _match(call, obs):
     a = obs[0][1]
     if "tm" in a and not (isinstance(a["tm"], (int, float)) and abs(a["tm"] - call["tm"] / 1e6) <= TOL):
         return "tm", f"{call['name']}: tm {a['tm']!r}, expected {call['tm'] / 1e6!r}"
-    if "state_tm" in a and not (isinstance(a["state_tm"], (int, float)) and abs(a["state_tm"] - call["state_tm"] / 1e6) <= TOL):
+    # state_tm is a difference of two float times of the size of tm, the older of which the library obtained by adding
+    # durations at every hop: 1 ns plus 2 ulp of tm per hop so far (at tm = 19 h an ulp is 1.5e-11 s; still far below 1 us)
+    import math
+    tol_st = TOL + 2 * math.ulp(max(1.0, abs(call["tm"]) / 1e6)) * (call.get("n_iter", 0) + 2)
+    if "state_tm" in a and not (isinstance(a["state_tm"], (int, float)) and abs(a["state_tm"] - call["state_tm"] / 1e6) <= tol_st):
         return "state_tm", f"{call['name']}: state_tm {a['state_tm']!r}, expected {call['state_tm'] / 1e6!r}"
     if "initial_call" in a and a["initial_call"] is not call["ic"]:
         return "initial_call", f"{call['name']}: initial_call {a['initial_call']!r}, expected {call['ic']!r}"
@@ -395,6 +399,7 @@ class Driver:
                     return self.fail("callback-at-on_disable", f"on_disable ran {self.log}", op)
                 return True
             if k == "iter":
+                self.n_iter = getattr(self, "n_iter", 0) + 1
                 self.mode.on_iteration(op[1] / 1e6)
                 obs = [(e[1], e[2]) for e in self.log if e[0] == "state"]
                 survivors = []
@@ -403,6 +408,8 @@ class Driver:
                     for choice in (0, 1):
                         m2 = m.clone()
                         call, evs, tie = m2.step(op[1], choice)
+                        if call is not None:
+                            call["n_iter"] = self.n_iter
                         bad = _match(call, obs)
                         if bad is None:
                             survivors.append((m2, evs, tie))
